@@ -229,6 +229,41 @@ def observe(formula):
     return resp, terms, icpt, groups, junk
 
 
+def leaves(ast):
+    if ast[0] in ("a", "lit"):
+        return 1
+    return sum(leaves(ch) for ch in ast[1:] if isinstance(ch, tuple))
+
+
+def f(x, p=1):
+    return x**p
+
+
+_FRAME = []
+
+
+def build_on_frame(formula):
+    import itertools
+    import numpy as np
+    import pandas as pd
+    from formulae import design_matrices
+
+    if not _FRAME:
+        rows = list(itertools.product(["u", "v"], ["p", "q", "r"], ["m", "n"], [0, 1]))
+        d = {"a": [r[0] for r in rows], "b": [r[1] for r in rows], "c": [r[2] for r in rows]}
+        d["g"] = [f"g{(i * 5) % 4}" for i in range(len(rows))]
+        d["h"] = [f"h{(i * 7) % 3}" for i in range(len(rows))]
+        rng = np.random.default_rng(5)
+        d["x"] = rng.normal(size=len(rows)).round(3)
+        d["y"] = rng.normal(size=len(rows)).round(3)
+        _FRAME.append(pd.DataFrame(d))
+    try:
+        design_matrices(formula, _FRAME[0])
+        return "built"
+    except Exception:
+        return "not-built"
+
+
 def has_nonadd(ast):
     if ast[0] in ("a", "lit"):
         return False
@@ -295,6 +330,19 @@ def check_case(case, acc):
         acc.case(formula, "mismatch")
         acc.violation("expansion", "mismatch:" + "+".join(aspects), case, f"{formula!r}: " + "; ".join(problems))
         return
+    # the description is a function of the text: a design built from the same text in between changes nothing
+    if stratum != "flat" and leaves(ast) <= 3:
+        built = build_on_frame(formula)
+        acc.calls += 2
+        acc.table("design_built_in_between", built)
+        try:
+            obs3 = observe(formula)
+        except Exception as e:
+            obs3 = f"raised {type(e).__name__}"
+        if obs3 != obs:
+            acc.case(formula, "mismatch-after-build")
+            acc.violation("description-stable", "mismatch", case, f"{formula!r}: model_description gives {obs3} after design_matrices({built}) on the same text, {obs} before")
+            return
     dup = len(iterms) != len(terms) or len(igroups) != len(groups)
     acc.case(formula, "ok-dup" if dup else "ok", nontrivial=has_nonadd(ast))
 
